@@ -508,7 +508,10 @@ fn feq(what: &str, got: F, want: u64) -> Result<(), String> {
     Ok(())
 }
 
-fn misc_scalar(c: &Misc, st: &mut Stats) -> Result<(), String> {
+/// `loops_ok` is false when an earlier sub-check already found the basic arithmetic broken: the
+/// loop-until-one routines (Tonelli-Shanks, subgroup enumeration) may then never terminate, and the
+/// violation is already recorded, so they are skipped instead of running into the watchdog.
+fn misc_scalar(c: &Misc, st: &mut Stats, loops_ok: bool) -> Result<(), String> {
     let pbig = BigUint::from(P);
     match c {
         Misc::ExpBig { a, digits } => {
@@ -613,6 +616,9 @@ fn misc_scalar(c: &Misc, st: &mut Stats) -> Result<(), String> {
             feq("from_bool", F::from_bool(a & 1 == 1), a & 1)?;
             feq("to_canonical", F(a).to_canonical(), a)?;
         }
+        Misc::Sqrt { .. } if !loops_ok => {
+            st.label("misc:sqrt skipped (basic arithmetic already failed)");
+        }
         Misc::Sqrt { a } => {
             st.label("misc:sqrt");
             if *a >= P || is_boundary(*a) {
@@ -652,7 +658,7 @@ fn fixed_case() -> BoxedStrategy<Fixed> {
 
 const PM1_ODD_FACTORS: [u64; 5] = [3, 5, 17, 257, 65537];
 
-fn field_consts(_c: &Fixed, st: &mut Stats) -> Result<(), String> {
+fn field_consts(_c: &Fixed, st: &mut Stats, loops_ok: bool) -> Result<(), String> {
     // p - 1 = 2^32 * 3 * 5 * 17 * 257 * 65537, so the q-list below is the complete prime list.
     let odd: u128 = PM1_ODD_FACTORS.iter().map(|&q| q as u128).product();
     ck!((odd << 32) == (P - 1) as u128, "harness: factorisation of p-1 is wrong");
@@ -705,7 +711,7 @@ fn field_consts(_c: &Fixed, st: &mut Stats) -> Result<(), String> {
             cur = refmod::mul(cur, r);
         }
         ck!(cur == 1, "two_adic_subgroup({}): g^(2^n) != 1", n_log);
-        if n_log <= 10 {
+        if n_log <= 10 && loops_ok {
             let gr = F::primitive_root_of_unity(n_log);
             if n_log >= 1 {
                 ck!(F::generator_order(gr) == 1 << n_log, "generator_order(root({}))", n_log);
@@ -1397,8 +1403,9 @@ pub fn run(ctx: &mut Ctx) {
 
     ctx.run_sub("scalar_ops", ctx.tier.pick(400_000, 20_000_000), 16, triple, scalar_ops);
     ctx.run_sub("batch_inverse", ctx.tier.pick(40_000, 1_500_000), 16, batch_case, batch_inverse);
-    ctx.run_sub("misc_scalar", ctx.tier.pick(60_000, 2_000_000), 16, misc_case, misc_scalar);
-    ctx.run_sub("field_consts", 1, 1, fixed_case, field_consts);
+    let loops_ok = ctx.violations.is_empty();
+    ctx.run_sub("misc_scalar", ctx.tier.pick(60_000, 2_000_000), 16, misc_case, |c, st| misc_scalar(c, st, loops_ok));
+    ctx.run_sub("field_consts", 1, 1, fixed_case, |c, st| field_consts(c, st, loops_ok));
     ctx.run_sub("ext_ops", ctx.tier.pick(30_000, 1_000_000), 16, ext_case, ext_ops);
     ctx.run_sub("ext_consts", 1, 1, fixed_case, ext_consts);
     ctx.run_sub("packed_ops", ctx.tier.pick(200_000, 10_000_000), 16, packed_case, packed_ops);
